@@ -370,6 +370,27 @@ func c20(c *core.Check) {
 		if nHex == 0 {
 			r4.Unknown("serializeIdentifier | hexadecimal escape of a leading digit", p.Pos(si.Pos()), "no Sprintf with a %X format found")
 		}
+		// after a single leading dash the next character still goes through the first-character escaping (a digit
+		// after the dash would otherwise start a number: `-0red`)
+		var dashBlk *ssa.BasicBlock
+		for _, a := range core.CondAtoms(si) {
+			if bo, ok := a.(*ssa.BinOp); ok && bo.Op == token.EQL {
+				if k, ok := core.ConstInt(bo.Y); ok && k == '-' {
+					dashBlk = bo.Block()
+				}
+			}
+		}
+		if dashBlk == nil || len(dashBlk.Succs) != 2 {
+			r4.Unknown("serializeIdentifier | character after a leading dash", p.Pos(si.Pos()), "the test of a leading '-' was not found")
+		} else {
+			isDecode := func(in ssa.Instruction) bool {
+				call, ok := in.(*ssa.Call)
+				return ok && call.Call.StaticCallee() != nil && call.Call.StaticCallee().Name() == "DecodeRuneInString"
+			}
+			isRet := func(in ssa.Instruction) bool { _, ok := in.(*ssa.Return); return ok }
+			okDash := core.PassFrom(dashBlk.Succs[0], isDecode, isRet)
+			r4.Cond(okDash, "serializeIdentifier | character after a leading dash", p.Pos(dashBlk.Instrs[0].Pos()), "the character after the dash goes through the first-character escaping", "after a leading '-' the function returns without escaping the next character as an identifier start: `-0red` is written as is and reads back as a dimension")
+		}
 	}
 	type esc struct {
 		fn   string
